@@ -1618,7 +1618,7 @@ def tuple_deep(x):
     return x
 
 
-def coq_compare(ctx, all_items, per=700):
+def coq_compare(ctx, all_items, per=1400):
     items = []
     hdr = ("From Coq Require Import List NArith. Import ListNotations.\n"
            "From PV Require Import Common.Cases C17.Model.\nLocal Open Scope N_scope.\n")
@@ -1628,9 +1628,9 @@ def coq_compare(ctx, all_items, per=700):
         ([c for c in all_items if c[0]["kind"] == "ice"], coq_ice_case, "check_ice",
          "N * N * N * bool * N * list iop * list obs", per),
         ([c for c in all_items if c[0]["kind"] == "ice2"], coq_ice2_case, "check_ice2",
-         "N * N * N * N * bool * data * list (option N) * list iop * list obs2", 120),
+         "N * N * N * N * bool * data * list (option N) * list iop * list obs2", 200),
         ([c for c in all_items if c[0]["kind"] == "race"], coq_race_case, "check_race",
-         "N * N * N * N * bool * data * list (option N) * list rop * list obs2", 150),
+         "N * N * N * N * bool * data * list (option N) * list rop * list obs2", 300),
     ]
     coq_items = []
     for fam, printer, fn, ty, n in fams:
